@@ -88,6 +88,47 @@ theorem addresses_do_not_interfere (who : Nat → Caller) (cr : Nat → Bool) (s
   subst hde
   exact ha ((h2 _ d (h5 k d hk)).2.2.2 _ (h5 j d hj))
 
+/-- **single_device_across_reconnects**: the connection may be lost and re-established at ANY
+point of the timeline — between frames, while a class loading is in flight, while consumers
+wait for the lock, between creation and publication: the lock, the device map and the in-flight
+loads survive it, so every conclusion of `per_address_single_device` holds for every timeline of
+caller moves and reconnects (it is the same run as the timeline without the reconnects). -/
+theorem single_device_across_reconnects (who : Nat → Caller) (cr : Nat → Bool) (ms : List Mv) :
+    let s := runMv true false who cr init ms
+    s = run true who cr init (movesOf ms) ∧
+    (∀ a, s.createdFor a ≤ 1 ∧ s.setupsFor a = s.createdFor a) ∧
+    (∀ a d, s.published a = some d → s.createdFor a = 1 ∧ cr a = true ∧ (a, d) ∈ s.dispatched ∧
+        ∀ b, s.published b = some d → b = a) ∧
+    (s.dispatched.map (·.1)).Nodup ∧
+    (∀ j d, s.pc j = .done d ∨ s.pc j = .got d → s.published (who j).addr = some d) ∧
+    (∀ f d, (f, d) ∈ s.handled → s.pc f = .done d ∧ s.published (who f).addr = some d) ∧
+    (s.handled.map (·.1)).Nodup := by
+  have e := runMv_eq_run who cr init ms
+  obtain ⟨h1, h2, _, h4, h5, h6, h7, _⟩ := per_address_single_device who cr (movesOf ms)
+  rw [e]
+  exact ⟨rfl, h1, h2, h4, h5, fun f d hf => ⟨(h6 f d hf).1, (h6 f d hf).2.2⟩, h7⟩
+
+/-- the invariant itself is preserved by the reconnect event at every point (and by every move) -/
+theorem reconnect_preserves_invariant (who : Nat → Caller) (cr : Nat → Bool) (ms : List Mv) :
+    Inv who cr (runMv true false who cr init ms) ∧
+      Inv who cr (stepMv true false who cr (runMv true false who cr init ms) .reconnect) :=
+  ⟨inv_runMv who cr init ms (inv_init who cr), inv_stepMv who cr _ .reconnect (inv_runMv who cr init ms (inv_init who cr))⟩
+
+/-- the model can tell the difference: if every connection started with a FRESH lock (`reset`),
+a reconnect while the first class loading is in flight lets the next frame start a second one —
+two objects for one address, the second replaces the first, two set-ups, frames split. -/
+theorem fresh_lock_counterexample :
+    let s := runMv true true (fun _ => ⟨.entry, 69⟩) (fun _ => true) init
+      [.move 0, .reconnect, .move 1, .move 0, .move 0, .move 1, .move 1]
+    s.createdFor 69 = 2 ∧ s.setupsFor 69 = 2 ∧ s.pc 0 = .done 0 ∧ s.pc 1 = .done 1 ∧
+      s.published 69 = some 1 ∧ s.dispatched = [(69, 1), (69, 0)] := by decide
+
+/-- … and the same timeline on the machine as it is: the second frame waits, one object -/
+example :
+    let s := runMv true false (fun _ => ⟨.entry, 69⟩) (fun _ => true) init
+      [.move 0, .reconnect, .move 1, .move 0, .move 0, .move 1, .move 1]
+    s.createdFor 69 = 1 ∧ s.pc 0 = .done 0 ∧ s.pc 1 = .done 0 ∧ s.dispatched = [(69, 0)] := by decide
+
 /-- an entry, once there, is never replaced: "at every time" -/
 theorem entry_is_stable (who : Nat → Caller) (cr : Nat → Bool) (sched more : List Nat) (a d : Nat)
     (h : (run true who cr init sched).published a = some d) :
@@ -207,6 +248,13 @@ example :
     let evs : List Ev := [.feed 69 3, .release, .release, .release]
     spec (frameAddrs evs) (getAddrs evs) (fun _ => true) ((replay false (fun _ => true) evs).filterMap id) = false := by
   decide +kernel
+
+/-- a reconnect while the class loading is pending, a frame on the new connection, then the
+release: accepted, complete, one object, both frames handled by it -/
+example :
+    let evs : List Ev := [.feed 69 1, .reconnect, .feed 69 1, .release]
+    (replay true (fun _ => true) evs).map (Option.map fun o => (o.held, o.created, o.handled)) =
+      [some (1, 0, []), some (1, 0, []), some (1, 0, []), some (0, 1, [(0, 0), (1, 0)])] := by decide +kernel
 
 /-- a release with no class loading pending is not an accepted schedule -/
 example : (replay true (fun _ => true) [.feed 69 1, .release, .release]).getLast? = some none := by decide +kernel
